@@ -5,14 +5,19 @@ package sharding
 import (
 	"context"
 	"sort"
+	"sync"
 	"time"
 
 	corev1 "k8s.io/api/core/v1"
+	apierrors "k8s.io/apimachinery/pkg/api/errors"
 	metav1 "k8s.io/apimachinery/pkg/apis/meta/v1"
+	"k8s.io/apimachinery/pkg/runtime"
 	k8slisterv1 "k8s.io/client-go/listers/core/v1"
+	k8stesting "k8s.io/client-go/testing"
 	"k8s.io/client-go/tools/cache"
 	"k8s.io/client-go/util/workqueue"
 
+	shardv1alpha1 "volcano.sh/apis/pkg/apis/shard/v1alpha1"
 	vcfake "volcano.sh/apis/pkg/client/clientset/versioned/fake"
 	shardlisters "volcano.sh/apis/pkg/client/listers/shard/v1alpha1"
 )
@@ -30,6 +35,8 @@ type VerifPublisher struct {
 	shards cache.Indexer
 	client *vcfake.Clientset
 	hidden map[string]bool // NodeShards the informer cache does not show (yet)
+	failMu sync.Mutex
+	fail   map[string]int // remaining failing Create/Update calls per NodeShard name
 }
 
 // VerifNewPublisher builds the controller state Initialize + applyShardingConfig would build.
@@ -54,7 +61,50 @@ func VerifNewPublisher(cfg *ShardingConfig) *VerifPublisher {
 	sc.schedulerConfigs = VerifSchedulerConfigs(cfg)
 	sc.shardingManager = NewShardingManager(sc.schedulerConfigs, sc)
 	p.sc = sc
+	p.fail = map[string]int{}
+	failing := func(action k8stesting.Action) (bool, runtime.Object, error) {
+		var name string
+		switch a := action.(type) {
+		case k8stesting.UpdateAction:
+			name = a.GetObject().(*shardv1alpha1.NodeShard).Name
+		case k8stesting.CreateAction:
+			name = a.GetObject().(*shardv1alpha1.NodeShard).Name
+		}
+		p.failMu.Lock()
+		defer p.failMu.Unlock()
+		if p.fail[name] > 0 {
+			p.fail[name]--
+			return true, nil, apierrors.NewServiceUnavailable("verif: injected NodeShard write failure")
+		}
+		return false, nil, nil
+	}
+	p.client.PrependReactor("update", "nodeshards", failing)
+	p.client.PrependReactor("create", "nodeshards", failing)
 	return p
+}
+
+// FailShardWrites makes the next k Create/Update calls for the named NodeShard
+// fail (k = 0 heals it).
+func (p *VerifPublisher) FailShardWrites(name string, k int) {
+	p.failMu.Lock()
+	defer p.failMu.Unlock()
+	p.fail[name] = k
+}
+
+// DrainWithRetries is Drain that also waits for the worker's rate-limited
+// requeues (a few milliseconds each) until the queue stays empty for a while.
+func (p *VerifPublisher) DrainWithRetries() {
+	idle := 0
+	for idle < 40 {
+		if p.sc.nodeShardQueue.Len() > 0 {
+			p.sc.processNextItem()
+			p.refreshShards()
+			idle = 0
+			continue
+		}
+		time.Sleep(5 * time.Millisecond)
+		idle++
+	}
 }
 
 // SetNodes replaces the content of the node informer cache.
